@@ -1,5 +1,6 @@
 import PybtexModel.Drv.Json
 import PybtexModel.Spec.AuxFile
+import PybtexModel.Model.AuxFileIO
 open Lean
 namespace Pybtex.Drv.C20
 open Pybtex.Aux
@@ -18,7 +19,7 @@ def reportJ (r : Report) : Json :=
   obj [("kind", Json.str r.kind.name), ("file", strToJson r.file), ("lineno", optJ nat r.lineno),
        ("str", strToJson r.str), ("ctx", optJ strToJson r.getContext), ("msg", strToJson r.kind.message)]
 
-def openMessage (p : Path) : Str := "unable to open ".toList ++ p ++ ". No such file or directory".toList
+def openMessage (p : Path) : Str := "unable to open ".toList ++ p ++ ". No such file or directory".toList   -- op `aux`: ENOENT only; op `auxio` takes the text from `openUnicode`
 
 def fatalJ : Fatal → Json
   | .aux e => reportJ e
@@ -114,6 +115,140 @@ def auxmatch (j : Json) : Except String Json := do
                  ("split", strs (pySplit ',' s)), ("strip", strToJson (strip s))]),
     ("spec", obj [("groups", itemJ (Spec.classify s)), ("split", strs (Spec.splitComma s))])])
 
-def handlers : List (String × (Json → Except String Json)) := [("aux", aux), ("auxmatch", auxmatch)]
+/-! ### second round: `pybtex.io`, the reporting modes, all of `make_bibliography` -/
+
+def parsePairs (l : List Json) : Except String (List (Path × Path)) :=
+  l.mapM fun p => do
+    let a ← p.getArr?
+    match a.toList with
+    | [n, f] => pure (← jsonToStr n, ← jsonToStr f)
+    | _ => throw "pair = [name, found] expected"
+
+def modeOf (j : Json) : Except String Mode :=
+  match j.getObjVal? "mode" with
+  | .ok (Json.str "strict") => pure .strict
+  | .ok (Json.str "nonstrict") => pure .nonStrict
+  | .ok (Json.str "capture") => pure .capture
+  | .ok Json.null => pure .capture
+  | .error _ => pure .capture
+  | _ => throw "mode = capture | strict | nonstrict"
+
+def optStr (j : Json) (k : String) : Except String (Option Str) :=
+  match j.getObjVal? k with
+  | .ok Json.null => pure none
+  | .error _ => pure none
+  | .ok v => do pure (some (← jsonToStr v))
+
+/-- fatal error with the message `pybtex.io._open` builds (strerror of the model's file system) -/
+def fatalIOJ (raw : RawFS) (locate : Path → Option Path) : Fatal → Json
+  | .cannotOpen p =>
+    match openUnicode raw locate p with
+    | .error msg =>
+      obj [("kind", Json.str "open"), ("file", Json.null), ("lineno", Json.null),
+           ("str", strToJson msg), ("ctx", Json.null), ("msg", strToJson msg)]
+    | .ok _ => obj [("kind", Json.str "MODEL:opened_after_all")]
+  | f => fatalJ f
+
+def outIOJ (raw : RawFS) (locate : Path → Option Path) : Except Abort St → Json
+  | .ok st => outJ (.ok st)
+  | .error a =>
+    obj [("citations", Json.null), ("style", Json.null), ("data", Json.null),
+         ("errors", arr (a.reports.map reportJ)), ("fatal", fatalIOJ raw locate a.fatal)]
+
+def channelOf : Except Abort St → List Report
+  | .ok st => st.reports
+  | .error a => a.reports
+
+def engineCallJ (raw : RawFS) (locate : Path → Option Path) : Except EngineErr EngineCall → Json
+  | .ok c =>
+    obj [("bib_filenames", strs c.args.bibFilenames), ("style", optJ strToJson c.args.style),
+         ("citations", strs c.args.citations), ("output_filename", strToJson c.outputFilename),
+         ("add_output_suffix", Json.bool c.addOutputSuffix), ("errors", Json.null), ("fatal", Json.null)]
+  | .error (.pluginNotFound n) =>
+    obj [("bib_filenames", Json.null), ("style", Json.null), ("citations", Json.null), ("output_filename", Json.null),
+         ("add_output_suffix", Json.null), ("errors", arr []),
+         ("fatal", obj [("kind", Json.str "PluginNotFound"), ("name", optJ strToJson n)])]
+  | .error (.abort a) =>
+    obj [("bib_filenames", Json.null), ("style", Json.null), ("citations", Json.null), ("output_filename", Json.null),
+         ("add_output_suffix", Json.null), ("errors", arr (a.reports.map reportJ)), ("fatal", fatalIOJ raw locate a.fatal)]
+
+/-- `auxio`: {files, top, kpse: [[name, found]…], mode: capture|strict|nonstrict, engine: null | {style, bib_format}}:
+the parse over the file system as `pybtex.io.open_unicode` presents it (directories, paths through files, a `kpsewhich`
+table), with `report_error` in the given mode; `spec` is the denotation over that file system (capture reading). -/
+def auxio (j : Json) : Except String Json := do
+  let files ← parseFiles (← getArr j "files")
+  let top ← getStr j "top"
+  let kpse ← match j.getObjVal? "kpse" with
+    | .ok (Json.arr a) => parsePairs a.toList
+    | _ => pure []
+  let mode ← modeOf j
+  let raw := rawOf files
+  let locate := locateOf kpse
+  let fs := ioFS raw locate
+  let fuel := files.length + 1
+  let evs := Spec.events fs fuel top
+  let um := Spec.eventsUntilMissing fs fuel top
+  let res := parseG fs mode fuel top
+  let engine : Json ←
+    match j.getObjVal? "engine" with
+    | .ok (Json.obj o) => do
+      let e := Json.obj o
+      let style ← optStr e "style"
+      let bf ← optStr e "bib_format"
+      pure (engineCallJ raw locate (makeBibliography Gen.Aux.readerSuffix fs mode fuel top style bf))
+    | _ => pure Json.null
+  pure (obj [
+    ("out", outIOJ raw locate res),
+    ("error_code", nat (errorCode mode (channelOf res))),
+    ("engine", engine),
+    ("spec", obj [
+      ("closed", Json.bool (closedDepth fs fuel top)),
+      ("acyclic", Json.bool (depthOk fs fuel top)),
+      ("missing", optJ strToJson um.2),
+      ("errors_until_missing", arr ((Spec.reports um.1).map specReportJ)),
+      ("cites_until_missing", citesJ um.1),
+      ("citations", strs (Spec.citations evs)),
+      ("style", optJ strToJson (Spec.style evs)),
+      ("data", optJ strs (Spec.data evs)),
+      ("errors", arr ((Spec.reports evs).map specReportJ)),
+      ("fatal", optJ (fun k => Json.str (Kind.name k)) (Spec.fatal evs)),
+      ("cites", citesJ evs),
+      ("events", nat evs.length)])])
+
+/-- `auxopen`: {files, kpse, name}: `pybtex.io.open_unicode(name)` alone: the lines read, the name handed to the opener,
+or the message of the PybtexError -/
+def auxopen (j : Json) : Except String Json := do
+  let files ← parseFiles (← getArr j "files")
+  let kpse ← match j.getObjVal? "kpse" with
+    | .ok (Json.arr a) => parsePairs a.toList
+    | _ => pure []
+  let name ← getStr j "name"
+  let raw := rawOf files
+  let locate := locateOf kpse
+  let out :=
+    match openUnicode raw locate name with
+    | .ok ls => obj [("lines", strs ls), ("opened", strToJson (openedName raw locate name)), ("error", Json.null)]
+    | .error msg => obj [("lines", Json.null), ("opened", Json.null), ("error", strToJson msg)]
+  pure (obj [("out", obj [("open", out), ("isfile", Json.bool (isfile raw name))]), ("spec", Json.null)])
+
+/-- `auxpath`: {s}: `os.path.splitext(s)[0]` as `make_bibliography` uses it -/
+def auxpath (j : Json) : Except String Json := do
+  let s ← getStr j "s"
+  pure (obj [("out", obj [("root", strToJson (splitextRoot s))]), ("spec", Json.null)])
+
+/-- `auxconsts`: the texts the model uses, for comparison with the running code -/
+def auxconsts (_ : Json) : Except String Json := do
+  let alts := joinWith ['|'] (cmdNames.map (·.2))
+  pure (obj [("out", obj [
+    ("pattern", strToJson ("\\\\(".toList ++ alts ++ "){(.*)}".toList)),
+    ("messages", strs [Kind.message .anotherBibstyle, Kind.message .anotherBibdata, Kind.message .noBibdata, Kind.message .noBibstyle,
+                       Kind.message (.caseMismatch "{0}".toList "{1}".toList)]),
+    ("location", strToJson (Report.str ⟨.noBibdata, [], some 7, none⟩)),
+    ("open", strToJson (Pybtex.Aux.openMessage "%s".toList "%s".toList)),
+    ("suffixes", arr (Gen.Aux.readerSuffix.map fun p => arr [optJ strToJson p.1, strToJson p.2]))]),
+    ("spec", Json.null)])
+
+def handlers : List (String × (Json → Except String Json)) :=
+  [("aux", aux), ("auxmatch", auxmatch), ("auxio", auxio), ("auxopen", auxopen), ("auxpath", auxpath), ("auxconsts", auxconsts)]
 
 end Pybtex.Drv.C20
